@@ -28,6 +28,10 @@ struct ChainOut {
     removed_old: usize,
     replace_with_none: bool,
     wrong: Vec<String>,
+    /// `replace_key`/`replace_entry` on a handle made by `Entry::insert` panicked (cleanly)
+    keyless_replace_panicked: bool,
+    /// ... or returned: which key object is stored now is read back from the map
+    adopt_key: bool,
 }
 
 impl<K: KeyT, V: ValT> World<K, V> {
@@ -39,7 +43,7 @@ impl<K: KeyT, V: ValT> World<K, V> {
         let key = K::make(kv);
         let arg_kid = key.oid();
         let slot = &mut self.maps[mi];
-        let mut co_out = ChainOut { inserts: 0, res: String::new(), cur: start, inserted: false, removed_old: 0, replace_with_none: false, wrong: Vec::new() };
+        let mut co_out = ChainOut { inserts: 0, res: String::new(), cur: start, inserted: false, removed_old: 0, replace_with_none: false, wrong: Vec::new(), keyless_replace_panicked: false, adopt_key: false };
         let o = &mut co_out;
         let co = call(|| {
             let mut cur = start;
@@ -323,6 +327,41 @@ impl<K: KeyT, V: ValT> World<K, V> {
                             }
                             ES::Done
                         }
+                        (Entry::Occupied(occ), Some(c)) => {
+                            // The handle came from `Entry::insert`, which keeps no key to put
+                            // back: this is a clean `unwrap()`-on-`None` panic (inherited from
+                            // hashbrown, which documents it) that leaves the map untouched. It
+                            // must never be anything worse; a normal return is accepted too.
+                            let is_entry = matches!(step, EStep::OccReplaceEntry);
+                            let r = std::panic::catch_unwind(std::panic::AssertUnwindSafe(|| {
+                                if is_entry {
+                                    let nv = V::make(p);
+                                    let vid = nv.oid();
+                                    let (k, v) = sut(|| occ.replace_entry(nv));
+                                    (k, Some((v, vid)))
+                                } else {
+                                    (sut(|| occ.replace_key()), None)
+                                }
+                            }));
+                            match r {
+                                Err(payload) => {
+                                    if payload.is::<ctx::FuseBlown>() {
+                                        std::panic::resume_unwind(payload);
+                                    }
+                                    // the SUT window is closed by the unwinding guards
+                                    o.keyless_replace_panicked = true;
+                                }
+                                Ok((k, v)) => {
+                                    k.check("replace_key/replace_entry on a handle made by Entry::insert");
+                                    if let Some((v, vid)) = v {
+                                        v.check("replace_entry on a handle made by Entry::insert");
+                                        cur = Some(MEntry { vid, p, ..c });
+                                    }
+                                    o.adopt_key = true;
+                                }
+                            }
+                            ES::Done
+                        }
                         (e, _) => ES::E(e),
                     },
                     EStep::VacKey | EStep::VacIntoKey | EStep::VacInsert => match (e, cur) {
@@ -382,7 +421,15 @@ impl<K: KeyT, V: ValT> World<K, V> {
                     acc.wrong(w);
                 }
                 acc.out.res = format!("{} => {:?}", co_out.res, co_out.cur.map(|c| c.p));
+                if co_out.keyless_replace_panicked {
+                    acc.probe("replace_key-on-handle-from-entry-insert-panicked-cleanly");
+                }
                 let slot = &mut self.maps[mi];
+                if co_out.adopt_key {
+                    if let (Some(c), Some((k, _))) = (co_out.cur.as_mut(), slot.m.get_key_value(&K::probe(kv))) {
+                        c.kid = k.oid();
+                    }
+                }
                 match co_out.cur {
                     Some(c) => {
                         slot.model.insert(kv, c);
@@ -397,7 +444,12 @@ impl<K: KeyT, V: ValT> World<K, V> {
                 if was_old {
                     acc.probe("entry-on-old-table-element");
                 }
-                let cost = if co_out.inserted { Cost::KeyAdding } else { Cost::Constant };
+                let mut cost = if co_out.inserted { Cost::KeyAdding } else { Cost::Constant };
+                if co_out.keyless_replace_panicked {
+                    // (the panic machinery allocates; the work bounds do not speak about a call
+                    // that panics)
+                    cost = Cost::Exempt;
+                }
                 acc.out.multi_insert = co_out.inserts > 1;
                 self.post_map(acc, mi, before, stats, cost, co_out.inserted, co_out.removed_old, co_out.replace_with_none);
             }
@@ -414,7 +466,7 @@ impl<K: KeyT, V: ValT> World<K, V> {
         let slot = &mut self.maps[mi];
         let hs = *slot.m.hasher();
         let hash = hs.hash_kv_of(&probe);
-        let mut co_out = ChainOut { inserts: 0, res: String::new(), cur: start, inserted: false, removed_old: 0, replace_with_none: false, wrong: Vec::new() };
+        let mut co_out = ChainOut { inserts: 0, res: String::new(), cur: start, inserted: false, removed_old: 0, replace_with_none: false, wrong: Vec::new(), keyless_replace_panicked: false, adopt_key: false };
         let o = &mut co_out;
         let co = call(|| {
             let mut cur = start;
